@@ -228,6 +228,8 @@ fn namer(rec: &RunRecord) -> impl Fn(Var) -> String + '_ {
 }
 
 pub struct Explorer {
+    /// property id, for child-process replays
+    pub property: String,
     pub z3: Solver,
     pub cvc5: Option<Solver>,
     pub cross_every: u64,
@@ -236,7 +238,7 @@ pub struct Explorer {
 
 impl Explorer {
     pub fn new(query_ms: u64, cross: bool) -> Explorer {
-        Explorer { z3: Solver::z3(query_ms), cvc5: if cross { Some(Solver::cvc5(query_ms)) } else { None }, cross_every: 7, run_counter: 0 }
+        Explorer { property: String::new(), z3: Solver::z3(query_ms), cvc5: if cross { Some(Solver::cvc5(query_ms)) } else { None }, cross_every: 7, run_counter: 0 }
     }
 
     pub fn explore<H: Harness>(&mut self, h: &H, budget: &Budget, seed: u64) -> ConfigResult {
@@ -358,6 +360,7 @@ impl Explorer {
         let mut open_branches = 0usize; // flips whose feasibility the solver could not decide
         let mut divergences = 0usize;
         let mut over_budget_paths = 0usize;
+        let mut budget_replays = 0usize;
         // first input: a point of Bounds ∧ Pre, preferably generic (every input non-zero), so that the
         // budgeted part of the exploration starts in the densest region instead of the all-zero corner
         let first = {
@@ -454,6 +457,21 @@ impl Explorer {
                     budget_hit = true;
                     res.budget_classes += 1;
                     class_status = "budget";
+                    // non-termination suspicion: replay the input natively in a child process with a wall-clock limit
+                    if msg.contains(STEP_BUDGET_MSG) && budget_replays < 3 {
+                        budget_replays += 1;
+                        match native_in_child(&h.id(), &self.property, &model_pairs, 40) {
+                            ChildVerdict::Timeout => {
+                                res.violations.push(Violation { harness: h.id(), what: "the call does not terminate: step/memory budget exhausted symbolically and the native replay did not finish within 40 s".into(), inputs: model_pairs.clone() });
+                                class_status = "violation";
+                            }
+                            ChildVerdict::Reproduced(w) => {
+                                res.violations.push(Violation { harness: h.id(), what: w, inputs: model_pairs.clone() });
+                                class_status = "violation";
+                            }
+                            ChildVerdict::Fine | ChildVerdict::Unavailable => {}
+                        }
+                    }
                 } else if h.panics_are_violations() {
                     match native_verdict(h, &model) {
                         Some(w) => {
@@ -790,6 +808,56 @@ fn hash_flip(pc: &[crate::ctx::Atom], i: usize) -> u64 {
     pc[i].negated().hash(&mut h);
     0xf11bu64.hash(&mut h);
     h.finish()
+}
+
+pub enum ChildVerdict {
+    Timeout,
+    Reproduced(String),
+    Fine,
+    Unavailable,
+}
+
+/// `symx replay` of one input in a child process with a wall-clock limit (kills it on timeout)
+pub fn native_in_child(harness: &str, property: &str, inputs: &[(String, String)], secs: u64) -> ChildVerdict {
+    let Ok(exe) = std::env::current_exe() else { return ChildVerdict::Unavailable };
+    let dir = std::env::temp_dir();
+    let path = dir.join(format!("symx_child_{}_{}.json", std::process::id(), inputs.len()));
+    let body = json!({"property": property, "engine": "symx", "harness": harness, "inputs": inputs});
+    if std::fs::write(&path, body.to_string()).is_err() {
+        return ChildVerdict::Unavailable;
+    }
+    let child = std::process::Command::new(exe).arg("replay").arg(&path).stdout(std::process::Stdio::piped()).stderr(std::process::Stdio::null()).spawn();
+    let Ok(mut child) = child else { return ChildVerdict::Unavailable };
+    let t0 = Instant::now();
+    let verdict = loop {
+        match child.try_wait() {
+            Ok(Some(st)) => {
+                let mut out = String::new();
+                if let Some(mut o) = child.stdout.take() {
+                    use std::io::Read;
+                    let _ = o.read_to_string(&mut out);
+                }
+                break match st.code() {
+                    Some(1) => ChildVerdict::Reproduced(out.trim().replace("REPRODUCED: ", "")),
+                    Some(0) => ChildVerdict::Fine,
+                    // killed by a signal / abort (e.g. allocation failure): treat like non-termination
+                    None => ChildVerdict::Timeout,
+                    _ => ChildVerdict::Unavailable,
+                };
+            }
+            Ok(None) => {
+                if t0.elapsed().as_secs() > secs {
+                    let _ = child.kill();
+                    let _ = child.wait();
+                    break ChildVerdict::Timeout;
+                }
+                std::thread::sleep(Duration::from_millis(100));
+            }
+            Err(_) => break ChildVerdict::Unavailable,
+        }
+    };
+    let _ = std::fs::remove_file(&path);
+    verdict
 }
 
 fn smt_big(n: &BigInt) -> String {
